@@ -51,7 +51,7 @@ Proof.
   - rewrite forallb_app in Hws. apply andb_true_iff in Hws. destruct Hws as [Hws He].
     specialize (IH Hws). destruct IH as [Hin Hfr].
     rewrite run_snoc. set (s := run byref maxf (init caps) evs) in *.
-    rewrite input_of_app. unfold ts_inv.
+    unfold ts_inv. rewrite input_of_app.
     destruct e as [chunk| |m|c|c|c]; cbn [step input_of handed dropped acc];
       try (rewrite app_nil_r; split; assumption).
     + (* Write *) rewrite app_nil_r, Hin, app_assoc. split; [reflexivity|exact Hfr].
@@ -59,12 +59,13 @@ Proof.
       rewrite app_nil_r.
       destruct (firstn maxf (acc s)) as [|b fr] eqn:F.
       * cbn [handed dropped acc]. split; [|exact Hfr].
-        assert (acc s = []) as ->; [|exact Hin].
-        destruct (acc s) as [|x a]; [reflexivity|]. destruct maxf; [lia|discriminate].
+        assert (E : acc s = []).
+        { destruct (acc s) as [|x a]; [reflexivity|]. destruct maxf; [lia|discriminate]. }
+        rewrite Hin, E. reflexivity.
       * unfold broadcast. cbn [handed dropped acc]. rewrite <- F.
         split.
         -- rewrite weave_snoc; [|eapply Forall2_length; exact Hfr].
-           rewrite app_nil_r, <- app_assoc, firstn_skipn. exact Hin.
+           rewrite app_nil_r, firstn_skipn. exact Hin.
         -- apply Forall2_snoc; [exact Hfr|]. split.
            ++ split; [rewrite F; cbn; lia|]. rewrite firstn_length. lia.
            ++ intros Hd. rewrite firstn_length.
@@ -166,19 +167,21 @@ Qed.
 
 Lemma take1_ok c : cons_ok c -> cons_ok (take1 c).
 Proof.
-  intros [Hq [Hh Hg]]. unfold take1. destruct (chanq c) as [|h q] eqn:E; [split; [|split]; rewrite ?E; assumption|].
-  inversion Hq as [|? ? H1 H2]; subst. split; [|split]; cbn; try assumption.
-  apply Forall_app. split; [exact Hh|constructor; [exact H1|constructor]].
+  intros [Hq [Hh Hg]]. unfold take1. destruct (chanq c) as [|h q] eqn:E.
+  - split; [rewrite E; constructor|split; assumption].
+  - inversion Hq as [|? ? H1 H2]; subst. split; [|split]; cbn [chanq hand got want]; try assumption.
+    apply Forall_app. split; [exact Hh|constructor; [exact H1|constructor]].
 Qed.
 
 Lemma consume1_ok fb c : cons_ok c -> cons_ok (consume1 fb c).
 Proof.
   intros [Hq [Hh Hg]]. unfold consume1. destruct (hand c) as [|[m shown] r] eqn:E.
-  - destruct (chanq c) as [|[m shown] q] eqn:E2; [split; [|split]; rewrite ?E, ?E2; try assumption; constructor|].
-    inversion Hq as [|? ? H1 H2]; subst. unfold held_ok in H1. cbn in H1. subst m.
-    split; [|split]; cbn; try assumption; [constructor|]. rewrite Hg. reflexivity.
-  - inversion Hh as [|? ? H1 H2]; subst. unfold held_ok in H1. cbn in H1. subst m.
-    split; [|split]; cbn; try assumption. rewrite Hg. reflexivity.
+  - destruct (chanq c) as [|[m shown] q] eqn:E2.
+    + split; [rewrite E2; constructor|split; [rewrite E; constructor|exact Hg]].
+    + inversion Hq as [|? ? H1 H2]; subst. unfold held_ok in H1. cbn [fst snd] in H1. subst m.
+      split; [|split]; cbn [chanq hand got want deref]; [exact H2|constructor|rewrite Hg; reflexivity].
+  - inversion Hh as [|? ? H1 H2]; subst. unfold held_ok in H1. cbn [fst snd] in H1. subst m.
+    split; [|split]; cbn [chanq hand got want deref]; [exact Hq|exact H2|rewrite Hg; reflexivity].
 Qed.
 
 (* a step that creates no window into the flush buffer keeps every consumer's view intact *)
@@ -237,22 +240,28 @@ Proof. induction 1; cbn; [apply sub_skip; constructor|constructor; assumption|ap
 
 Lemma offer_ordered hs m shown c : ordered hs c -> ordered (hs ++ [shown]) (offer (m, shown) c).
 Proof.
-  unfold ordered, pending, offer. intros H. destruct (busy c); cbn; [apply sub_snoc_skip; exact H|].
-  destruct (length (chanq c) <? cap c); cbn; [|apply sub_snoc_skip; exact H].
-  rewrite map_app. cbn [map snd]. rewrite !app_assoc. apply sub_snoc_keep. rewrite <- !app_assoc. exact H.
+  unfold ordered, pending, offer. intros H. destruct (busy c).
+  - cbn [want hand chanq]. apply sub_snoc_skip; exact H.
+  - destruct (length (chanq c) <? cap c).
+    + cbn [want hand chanq]. rewrite map_app. cbn [map snd]. rewrite !app_assoc. apply sub_snoc_keep.
+      rewrite <- !app_assoc. exact H.
+    + apply sub_snoc_skip; exact H.
 Qed.
 
 Lemma take1_pending c : pending (take1 c) = pending c.
 Proof.
-  unfold pending, take1. destruct (chanq c) as [|h q]; [reflexivity|]. cbn.
-  rewrite map_app. cbn [map]. rewrite <- !app_assoc. reflexivity.
+  unfold pending, take1. destruct (chanq c) as [|h q] eqn:E.
+  - rewrite E. reflexivity.
+  - cbn [want hand chanq]. rewrite map_app. cbn [map]. rewrite <- !app_assoc. reflexivity.
 Qed.
 
 Lemma consume1_pending fb c : pending (consume1 fb c) = pending c.
 Proof.
-  unfold pending, consume1. destruct (hand c) as [|[m shown] r].
-  - destruct (chanq c) as [|[m shown] q]; [reflexivity|]. cbn. rewrite <- !app_assoc. reflexivity.
-  - cbn. rewrite <- !app_assoc. reflexivity.
+  unfold pending, consume1. destruct (hand c) as [|[m shown] r] eqn:E.
+  - destruct (chanq c) as [|[m shown] q] eqn:E2.
+    + rewrite E, E2. reflexivity.
+    + cbn [want hand chanq map snd app]. rewrite <- !app_assoc. reflexivity.
+  - cbn [want hand chanq map snd app]. rewrite <- !app_assoc. reflexivity.
 Qed.
 
 Lemma step_ordered byref maxf s e :
@@ -290,6 +299,15 @@ Proof.
   eapply Forall_impl; [|exact H]. intros c Hc. unfold ordered, pending in Hc. eapply sub_app_l. exact Hc.
 Qed.
 
+(* repaired code: what each consumer READ is a sub-sequence of what was handed on *)
+Lemma reads_are_handed_frames maxf caps evs :
+  let s := run false maxf (init caps) evs in Forall (fun c => sub (got c) (handed s)) (cons s).
+Proof.
+  intros s. pose proof (reads_in_order false maxf caps evs) as H1. pose proof (content_stable maxf caps evs) as H2.
+  fold s in H1, H2. induction H1 as [|c l Hc Hl IH]; [constructor|].
+  inversion H2 as [|? ? Hg Hr]; subst. constructor; [rewrite Hg; exact Hc|apply IH; exact Hr].
+Qed.
+
 (* ------------------------------------------------------------------ websocket paths: one message in, the same message on *)
 
 Lemma ws_handed_identity byref maxf caps evs :
@@ -302,6 +320,18 @@ Proof.
   destruct e as [chunk| |m|c|c|c]; cbn [step handed wsmsgs_of]; rewrite ?app_nil_r; try exact IH.
   - cbn in He. discriminate.
   - rewrite IH. reflexivity.
+Qed.
+
+Lemma ws_reads_are_sent_messages byref maxf caps evs :
+  forallb (fun e => negb (is_flush e)) evs = true ->
+  let s := run byref maxf (init caps) evs in
+  handed s = wsmsgs_of evs /\ Forall (fun c => got c = want c /\ sub (got c) (wsmsgs_of evs)) (cons s).
+Proof.
+  intros Hnf s. pose proof (ws_handed_identity byref maxf caps evs Hnf) as Hh. fold s in Hh.
+  split; [exact Hh|].
+  pose proof (reads_in_order byref maxf caps evs) as H1. pose proof (content_stable_ws byref maxf caps evs Hnf) as H2.
+  cbv zeta in H1. fold s in H1, H2. rewrite Hh in H1. induction H1 as [|c l Hc Hl IH]; [constructor|].
+  inversion H2 as [|? ? Hg Hr]; subst. constructor; [split; [exact Hg|rewrite Hg; exact Hc]|apply IH; exact Hr].
 Qed.
 
 (* ------------------------------------------------------------------ the pinned tree (F10) *)
